@@ -64,7 +64,9 @@ GidLens == {0, 1, 31, 32}
 Shapes ==
        {[kind |-> "valset", n |-> n, gid |-> g, variant |-> v] : n \in 0..4, g \in GidLens, v \in 1..3}
   \cup {[kind |-> "batch", k |-> k, gid |-> g, variant |-> v] : k \in {0, 1, 2, 3, 100}, g \in GidLens, v \in 1..3}
-  \cup {[kind |-> "logic", t |-> t, f |-> f, plen |-> p, gid |-> g, variant |-> v] : t \in 0..2, f \in 0..2, p \in {0, 1, 31, 32, 33, 64, 65}, g \in {0, 32}, v \in 1..2}
+  \cup {[kind |-> "logic", t |-> t, f |-> f, plen |-> p, gid |-> g, variant |-> v, slen |-> 32] : t \in 0..2, f \in 0..2, p \in {0, 1, 31, 32, 33, 64, 65}, g \in {0, 32}, v \in 1..2}
+       \* the invalidation scope is a byte string on the hub and a bytes32 in the contract: slen bytes, left aligned
+  \cup {[kind |-> "logic", t |-> 1, f |-> 1, plen |-> 33, gid |-> 32, variant |-> v, slen |-> sl] : sl \in {0, 1, 14, 20, 31, 33, 40}, v \in 1..2}
 
 LayoutOf(s) ==
     CASE s.kind = "valset" -> ValsetLayout(s.n)
